@@ -1424,20 +1424,36 @@ func (c *Conn) readLine() (string, error) {
 // taken off the stream.
 func (c *Conn) resumeLineLimit() {
 	pending, _ := c.text.R.Peek(c.text.R.Buffered())
-	// What follows a BDAT command line is the payload of the next chunk, not
-	// command lines: it is not counted.
-	for i := 0; i < len(pending); {
-		j := bytes.IndexByte(pending[i:], '\n')
-		if j < 0 {
-			break
-		}
-		if cmd, _, err := parseCmd(string(pending[i : i+j+1])); err == nil && cmd == "BDAT" {
-			pending = pending[:i+j+1]
-			break
-		}
-		i += j + 1
+	r := c.lineLimitReader
+	r.resume(c.server.MaxLineLength, nil)
+	if r.LineLimit == 0 {
+		return
 	}
-	c.lineLimitReader.resume(c.server.MaxLineLength, pending)
+	// The command lines that are buffered already are counted now. Behind a
+	// BDAT command line that announces a size comes the payload of that
+	// chunk, which is not made of command lines: it is skipped.
+	for len(pending) > 0 {
+		j := bytes.IndexByte(pending, '\n')
+		if j < 0 {
+			r.count(pending)
+			return
+		}
+		line := pending[:j+1]
+		if !r.count(line) {
+			return
+		}
+		pending = pending[j+1:]
+		if cmd, arg, err := parseCmd(string(line)); err == nil && cmd == "BDAT" {
+			if args := strings.Fields(arg); len(args) > 0 {
+				if size, err := strconv.ParseUint(args[0], 10, 32); err == nil {
+					if uint64(len(pending)) <= size {
+						return
+					}
+					pending = pending[size:]
+				}
+			}
+		}
+	}
 }
 
 func (c *Conn) reset() {
